@@ -384,13 +384,16 @@ func c19Run(c *Ctx, gen string, idx int, k c19Case) bool {
 				}
 				return true, true
 			}
-			mc.SendLine("AUTHENTICATE +")
-			if !quiesce() {
-				return false, false
-			}
-			_, _, auth, _ = capLines()
-			if len(auth) != 2 || auth[1] != wantPayload {
-				viol("sasl-payload", fmt.Sprintf("AUTHENTICATE lines %v, want [%s %s]", auth, mech, wantPayload))
+			// (a server that rejects the mechanism does so at once: every other 908 comes without a prompt before it)
+			if !(k.Outcome == "908" && idx%2 == 0) {
+				mc.SendLine("AUTHENTICATE +")
+				if !quiesce() {
+					return false, false
+				}
+				_, _, auth, _ = capLines()
+				if len(auth) != 2 || auth[1] != wantPayload {
+					viol("sasl-payload", fmt.Sprintf("AUTHENTICATE lines %v, want [%s %s]", auth, mech, wantPayload))
+				}
 			}
 			fromO := mc.NumLines()
 			switch k.Outcome {
@@ -458,9 +461,13 @@ func c19Run(c *Ctx, gen string, idx int, k c19Case) bool {
 			if len(held) > 0 {
 				conn.Cap("REQ", held[0], "never-supported")
 				mc.WaitLineFrom(WaitLong, 0, func(l string) bool { return strings.HasPrefix(l, "CAP REQ") && strings.Contains(l, "never-supported") })
+				fromN := mc.NumLines()
 				mc.SendLine(":srv CAP * NAK :" + held[0] + " never-supported")
 				if !quiesce() {
 					return false, false
+				}
+				if !endSince(fromN) {
+					viol("no-end", fmt.Sprintf("no CAP END in answer to the NAK of a later request (SASL: %s, outcome %s, sasl started: %v)", k.Sasl, k.Outcome, saslStarted))
 				}
 			}
 		}
